@@ -283,6 +283,15 @@ theorem partition_cover (batch conc start limit : Nat) (hb : 1 ≤ batch) (hc : 
   rw [show parts batch conc start limit = [] from h] at h1
   simp at h1
 
+/-- **load_linked** (C01): whatever blocks a step accepts from `load` — for ANY answer script,
+    honest or not — form one hash-linked run: every block that carries a 32-byte parent hash names
+    the hash of the block before it. Partitions answered from different forks are never merged. -/
+theorem load_linked (t : Task) (s : St) (localHash : String) (start limit : Nat) (bs : List Blk) (s' : St)
+    (h : load t s localHash start limit = (.blocks bs, s')) : linked bs = true := by
+  obtain ⟨_, _, _, _, hcase⟩ := load_cases t s s' localHash start limit _ h
+  rcases hcase with ⟨_, hx⟩ | ⟨_, _, hx⟩ | ⟨_, _, ⟨_, hx⟩ | ⟨_, _, _, ⟨_, hx⟩ | ⟨_, _, hx⟩ | ⟨hl, _, hx⟩⟩⟩ <;> cases hx
+  exact hl
+
 /-! C03 -/
 
 /-- **unwind_step / converge_after_reorg** (C03).  The source has settled on chain `c` and grown
@@ -418,6 +427,33 @@ example : (∃ n, (converge t1 dbR scR none).outcome = .ok n ∧ g2.num < n) ∧
 
 /-- the partition ranges for batch 5, concurrency 2 cover only 4 of the 5 requested blocks -/
 example : parts 5 2 10 5 = [(10, 2), (12, 2)] := by decide +kernel
+
+/-! partitions of one batch answered from different forks: block 1 of `c6`, and a block 2 whose
+    parent is not block 1 of `c6` -/
+
+def scFork : Script :=
+  { latest := [some (5, c6.hashAt 5)], hash := [(0, some (c6.hashAt 0))],
+    gets := [((1, 1), some (c6.slice 1 1)), ((2, 1), some [blk 2 'b' 'a' "f2"])] }
+
+def isErr : LoadRes → Bool
+  | .err => true
+  | _ => false
+
+def blocksOf : LoadRes → Option (List Blk)
+  | .blocks bs => some bs
+  | _ => none
+
+/-- `load` rejects the two partitions with `.err` (all answers arrived, none failed) -/
+example : isErr (load t1 { db := {}, view := {}, script := scFork } (c6.hashAt 0) 1 2).1 = true ∧
+    linked (c6.slice 1 1 ++ [blk 2 'b' 'a' "f2"]) = false := by decide +kernel
+
+/-- the step fails with an error and commits nothing -/
+example : (converge t1 {} scFork none).outcome = .err ∧ (converge t1 {} scFork none).db = {} ∧
+    (converge t1 {} scFork none).mid = none ∧ (converge t1 {} scFork none).scriptOk = true := by decide +kernel
+
+/-- honest partitions (both from `c6`) are accepted: `load` answers blocks 1 and 2 -/
+example : blocksOf (load t1 { db := {}, view := {}, script := sc1 } (c6.hashAt 0) 1 2).1 = some (c6.slice 1 2) ∧
+    linked (c6.slice 1 2) = true := by decide +kernel
 
 end Ex
 
